@@ -8,13 +8,13 @@
    Some operations keep the invariant only in states that satisfy a side condition (e.g. knot insertion: the direction is
    not periodic); the side conditions are collected in [guard2 tol o a] and the history theorem asks for them along the run
    ([guarded2]).  Operations for which no side condition was found have guard [False]; they are listed at the end. *)
-From Coq Require Import List Arith Reals Lra Lia Bool ZArith Permutation.
+From Coq Require Import List Arith Reals Lra Lia Bool ZArith Permutation Sorted.
 From SplipyModel Require Import Spec.BSpline Model.Num Model.BasisDef Model.BasisEval Model.Tensor Model.Obj Model.KnotInsert
   Model.Reparam Model.Affine Model.Tol Model.Solve Model.Interp Model.Order Model.Split Model.Section Model.Periodic Model.Identical
   Model.Append Model.WF Model.Ops Model.Ops2 Model.G2
   Proofs.KnotList Proofs.SpanCorrect Proofs.EvalConsequences Proofs.TensorLemmas Proofs.TensorApply Proofs.InsertMatrix
   Proofs.InsertObj Proofs.InsertEndToEnd Proofs.ObjEval Proofs.ReparamObj Proofs.ReparamEndToEnd Proofs.ReverseEndToEnd
-  Proofs.AppendProofs Proofs.WFProofs Proofs.G2Proofs Proofs.SwapEndToEnd Proofs.OrderProofs Proofs.LinAlg Proofs.InterpProofs.
+  Proofs.AppendProofs Proofs.WFProofs Proofs.G2Proofs Proofs.SwapEndToEnd Proofs.OrderProofs Proofs.LinAlg Proofs.InterpProofs Proofs.SplitCompose.
 Import ListNotations.
 Open Scope R_scope.
 
@@ -857,4 +857,456 @@ Proof.
   - rewrite o_shape_nth by exact Hd. exact M2.
   - exact HV.
   - apply HW. exact Hr.
+Qed.
+
+(* ------------------------------------------------------------------------------------------------ *)
+(* raise_order: the new knot vector of a non-periodic direction whose domain is wider than the tolerance *)
+Lemma lsorted_nth (l : list R) : lsorted l -> lsortedn l.
+Proof.
+  induction 1 as [|x|x y l Hxy Hs IH]; intros i j Hij; cbn [length] in Hij.
+  - lia.
+  - assert (i = 0%nat) by lia. assert (j = 0%nat) by lia. subst. lra.
+  - destruct i as [|i]; destruct j as [|j]; try lia; cbn [nth]; [lra| |].
+    + pose proof (IH 0%nat j ltac:(cbn [length]; lia)) as H0. cbn [nth] in H0. lra.
+    + apply (IH i j). cbn [length]. lia.
+Qed.
+
+Lemma perm_filter_length {A} (f : A -> bool) (l l' : list A) : Permutation l l' -> length (filter f l) = length (filter f l').
+Proof.
+  induction 1 as [|x l l' H IH|x y l|l l' l'' H1 IH1 H2 IH2]; cbn [filter]; [reflexivity| | |congruence].
+  - destruct (f x); cbn [length]; congruence.
+  - destruct (f x), (f y); reflexivity.
+Qed.
+
+Lemma filter_all {A} (f : A -> bool) (l : list A) : (forall x, In x l -> f x = true) -> filter f l = l.
+Proof. induction l as [|a l IH]; intros H; cbn [filter]; [reflexivity|]. rewrite (H a (or_introl eq_refl)). f_equal. apply IH. intros x Hx. apply H. right. exact Hx. Qed.
+Lemma filter_none {A} (f : A -> bool) (l : list A) : (forall x, In x l -> f x = false) -> filter f l = [].
+Proof. induction l as [|a l IH]; intros H; cbn [filter]; [reflexivity|]. rewrite (H a (or_introl eq_refl)). apply IH. intros x Hx. apply H. right. exact Hx. Qed.
+Lemma filter_length_le {A} (f : A -> bool) (l : list A) : (length (filter f l) <= length l)%nat.
+Proof. induction l as [|a l IH]; cbn [filter length]; [lia|]. destruct (f a); cbn [length]; lia. Qed.
+
+Lemma In_skipn_nth (l : list R) m x : In x (skipn m l) -> exists i, (m <= i < length l)%nat /\ nth i l 0 = x.
+Proof.
+  intros H. destruct (In_nth _ _ 0 H) as (j & Hj & Ej). rewrite skipn_length in Hj. rewrite nth_skipn_add in Ej. exists (m + j)%nat. split; [lia|exact Ej].
+Qed.
+Lemma In_firstn_nth (l : list R) m x : In x (firstn m l) -> exists i, (i < m)%nat /\ (i < length l)%nat /\ nth i l 0 = x.
+Proof.
+  intros H. destruct (In_nth _ _ 0 H) as (j & Hj & Ej). rewrite firstn_length in Hj. rewrite nth_firstn_lt in Ej by lia. exists j. split; [lia|split; [lia|exact Ej]].
+Qed.
+
+(* counting in an index-sorted list *)
+Lemma count_le_nth (K : list R) s m : lsortedn K -> (1 <= m)%nat -> (m <= length (filter (fun x => Rleb x s) K))%nat -> nth (m - 1) K 0 <= s.
+Proof.
+  intros HS Hm Hc. destruct (Rle_lt_dec (nth (m - 1) K 0) s) as [L|L]; [exact L|exfalso].
+  pose proof (filter_length_le (fun x => Rleb x s) K) as HL.
+  rewrite <- (firstn_skipn (m - 1) K) in Hc. rewrite filter_app, app_length in Hc.
+  rewrite (filter_none _ (skipn (m - 1) K)) in Hc.
+  - pose proof (filter_length_le (fun x => Rleb x s) (firstn (m - 1) K)). rewrite firstn_length in H. cbn [length] in Hc. lia.
+  - intros x Hx. destruct (In_skipn_nth _ _ _ Hx) as (i & Hi & <-). pose proof (HS (m - 1)%nat i ltac:(lia)).
+    destruct (Rleb_spec (nth i K 0) s); [lra|reflexivity].
+Qed.
+
+Lemma count_gt_nth (K : list R) s m : lsortedn K -> (1 <= m)%nat -> (m <= length (filter (fun x => Rltb s x) K))%nat -> s < nth (length K - m) K 0.
+Proof.
+  intros HS Hm Hc. destruct (Rlt_le_dec s (nth (length K - m) K 0)) as [L|L]; [exact L|exfalso].
+  pose proof (filter_length_le (fun x => Rltb s x) K) as HL.
+  rewrite <- (firstn_skipn (length K - m + 1) K) in Hc. rewrite filter_app, app_length in Hc.
+  rewrite (filter_none _ (firstn (length K - m + 1) K)) in Hc.
+  - pose proof (filter_length_le (fun x => Rltb s x) (skipn (length K - m + 1) K)). rewrite skipn_length in H. cbn [length] in Hc. lia.
+  - intros x Hx. destruct (In_firstn_nth _ _ _ Hx) as (i & Hi & Hi' & <-). pose proof (HS i (length K - m)%nat ltac:(lia)).
+    destruct (Rltb_spec s (nth i K 0)); [lra|reflexivity].
+Qed.
+
+Lemma count_prefix_ge {A} (f : A -> bool) (l : list A) m : (m <= length l)%nat -> (forall x, In x (firstn m l) -> f x = true) -> (m <= length (filter f l))%nat.
+Proof.
+  intros Hm H. rewrite <- (firstn_skipn m l) at 1. rewrite filter_app, app_length, (filter_all f (firstn m l) H), firstn_length. lia.
+Qed.
+Lemma count_suffix_ge {A} (f : A -> bool) (l : list A) m : (m <= length l)%nat -> (forall x, In x (skipn (length l - m) l) -> f x = true) -> (m <= length (filter f l))%nat.
+Proof.
+  intros Hm H. rewrite <- (firstn_skipn (length l - m) l) at 1. rewrite filter_app, app_length, (filter_all f (skipn (length l - m) l) H), skipn_length. lia.
+Qed.
+
+Lemma repeat_list_len {A} (sp : list A) a : length (repeat_list sp a) = (a * length sp)%nat.
+Proof. induction a as [|a IH]; cbn [repeat_list]; [reflexivity|]. rewrite app_length, IH. lia. Qed.
+Lemma count_repeat_list_ge {A} (f : A -> bool) (sp : list A) a : (exists v, In v sp /\ f v = true) -> (a <= length (filter f (repeat_list sp a)))%nat.
+Proof.
+  intros (v & Hv & Hf). induction a as [|a IH]; cbn [repeat_list]; [lia|]. rewrite filter_app, app_length.
+  assert (1 <= length (filter f sp))%nat.
+  { assert (In v (filter f sp)) by (apply filter_In; split; assumption). destruct (filter f sp); [contradiction|cbn; lia]. }
+  lia.
+Qed.
+
+(* some representative picked by uniq_tol lies above s, if some knot lies more than tol above s *)
+Lemma uniq_tol_reaches (tol s : R) : 0 <= tol -> forall l last, last <= s -> (exists y, In y l /\ tol < y - s) ->
+  exists v, In v (uniq_tol tol last l) /\ s < v.
+Proof.
+  intros Htol. induction l as [|x l IH]; intros last Hl (y & Hy & Hys); [contradiction|].
+  cbn [uniq_tol]. unfold nabs. cbn [nltb nsub n0 NumR].
+  destruct (Rltb_spec tol (if Rltb (x - last) 0 then 0 - (x - last) else x - last)) as [P|P].
+  - destruct (Rlt_le_dec s x) as [Sx|Sx]; [exists x; split; [left; reflexivity|exact Sx]|].
+    destruct (IH x Sx) as (v & Hv & Hsv).
+    + destruct Hy as [->|Hy]; [lra|]. exists y. split; assumption.
+    + exists v. split; [right; exact Hv|exact Hsv].
+  - destruct (IH last Hl) as (v & Hv & Hsv); [|exists v; split; assumption].
+    destruct Hy as [->|Hy]; [|exists y; split; assumption]. exfalso.
+    destruct (Rltb_spec (y - last) 0); lra.
+Qed.
+
+Section RaiseBasis.
+Variable tol : R.
+Variable b : basis R.
+Variable a : nat.
+Hypothesis Htol : 0 <= tol.
+Hypothesis Hb : knots_ok b.
+Hypothesis Hper : b_per1 b = 0%nat.
+Hypothesis Hwide : tol < b_end b - b_start b.
+Hypothesis Ha : (0 < a)%nat.
+Local Notation p := (b_order b).
+Local Notation k := (b_knots b).
+Local Notation s := (b_start b).
+Local Notation e := (b_end b).
+Local Notation spans := (knot_spans tol b true).
+Local Notation L := (k ++ repeat_list spans a).
+Local Notation K' := (sort_list L).
+
+Lemma rb_basis : basis_raise_order tol b a = mkBasis (p + a) K' 0.
+Proof. unfold basis_raise_order. destruct (Nat.eqb_spec a 0); [lia|]. cbv zeta. rewrite Hper. reflexivity. Qed.
+
+Lemma rb_spans : spans = kn k 0 :: uniq_tol tol (kn k 0) k.
+Proof. reflexivity. Qed.
+
+Lemma rb_e_in : In e k.
+Proof. destruct Hb as (Hp & Hlen & HK & Hse). unfold b_end. rewrite (kn_in k (length k - p)%nat ltac:(lia) 0). apply nth_In. lia. Qed.
+
+Lemma rb_span_above : exists v, In v spans /\ s < v.
+Proof.
+  destruct Hb as (Hp & Hlen & HK & Hse).
+  destruct (uniq_tol_reaches tol s Htol k (kn k 0)) as (v & Hv & Hsv).
+  - unfold b_start. apply HK. lia.
+  - exists e. split; [exact rb_e_in|lra].
+  - exists v. split; [rewrite rb_spans; right; exact Hv|exact Hsv].
+Qed.
+
+Lemma rb_spans_two : (2 <= length spans)%nat.
+Proof.
+  destruct rb_span_above as (v & Hv & Hsv). rewrite rb_spans in *. destruct Hv as [E|Hv].
+  - exfalso. destruct Hb as (Hp & Hlen & HK & Hse). pose proof (HK 0%nat (p - 1)%nat ltac:(lia)). unfold b_start in Hsv. lra.
+  - destruct (uniq_tol tol (kn k 0) k); [contradiction|cbn [length]; lia].
+Qed.
+
+Lemma rb_K_sorted : lsortedn K'.
+Proof. apply lsorted_nth. apply sort_list_sorted. Qed.
+
+Lemma rb_K_length : length K' = (length k + a * length spans)%nat.
+Proof. rewrite (Permutation_length (sort_list_perm L)), app_length, repeat_list_len. reflexivity. Qed.
+
+Lemma rb_count_le : (p + a <= length (filter (fun x => Rleb x s) K'))%nat.
+Proof.
+  destruct Hb as (Hp & Hlen & HK & Hse). rewrite (perm_filter_length _ _ _ (sort_list_perm L)), filter_app, app_length.
+  assert (p <= length (filter (fun x => Rleb x s) k))%nat.
+  { apply count_prefix_ge; [lia|]. intros x Hx. destruct (In_firstn_nth _ _ _ Hx) as (i & Hi & Hi' & <-).
+    rewrite <- (kn_in k i) by lia. pose proof (HK i (p - 1)%nat ltac:(lia)). unfold b_start. destruct (Rleb_spec (kn k i) (kn k (p - 1))); [reflexivity|lra]. }
+  assert (a <= length (filter (fun x => Rleb x s) (repeat_list spans a)))%nat.
+  { apply count_repeat_list_ge. exists (kn k 0). split; [rewrite rb_spans; left; reflexivity|].
+    pose proof (HK 0%nat (p - 1)%nat ltac:(lia)). unfold b_start. destruct (Rleb_spec (kn k 0) (kn k (p - 1))); [reflexivity|lra]. }
+  lia.
+Qed.
+
+Lemma rb_count_gt : (p + a <= length (filter (fun x => Rltb s x) K'))%nat.
+Proof.
+  destruct Hb as (Hp & Hlen & HK & Hse). rewrite (perm_filter_length _ _ _ (sort_list_perm L)), filter_app, app_length.
+  assert (p <= length (filter (fun x => Rltb s x) k))%nat.
+  { apply count_suffix_ge; [lia|]. intros x Hx. destruct (In_skipn_nth _ _ _ Hx) as (i & Hi & <-).
+    rewrite <- (kn_in k i) by lia. pose proof (HK (length k - p)%nat i ltac:(lia)). unfold b_end in Hse.
+    destruct (Rltb_spec s (kn k i)); [reflexivity|lra]. }
+  assert (a <= length (filter (fun x => Rltb s x) (repeat_list spans a)))%nat.
+  { apply count_repeat_list_ge. destruct rb_span_above as (v & Hv & Hsv). exists v. split; [exact Hv|].
+    destruct (Rltb_spec s v); [reflexivity|lra]. }
+  lia.
+Qed.
+
+Lemma knots_ok_raise : knots_ok (basis_raise_order tol b a) /\ (0 < b_nfun (basis_raise_order tol b a))%nat /\
+  b_per1 (basis_raise_order tol b a) = 0%nat /\ b_order (basis_raise_order tol b a) = (p + a)%nat.
+Proof.
+  rewrite rb_basis. pose proof Hb as (Hp & Hlen & HK & Hse). pose proof rb_spans_two as H2. pose proof rb_K_length as HL.
+  assert (Hlen' : (2 * (p + a) <= length K')%nat) by (rewrite HL; nia).
+  assert (Hs' : b_start (mkBasis (p + a) K' 0) <= s).
+  { unfold b_start at 1. cbn [b_order b_knots]. rewrite (kn_in K' (p + a - 1)%nat ltac:(lia) 0).
+    apply count_le_nth; [exact rb_K_sorted|lia|exact rb_count_le]. }
+  assert (He' : s < b_end (mkBasis (p + a) K' 0)).
+  { unfold b_end at 1. cbn [b_order b_knots]. rewrite (kn_in K' (length K' - (p + a))%nat ltac:(lia) 0).
+    apply count_gt_nth; [exact rb_K_sorted|lia|exact rb_count_gt]. }
+  split; [|split; [unfold b_nfun; cbn [b_order b_knots b_per1]; lia|split; reflexivity]].
+  split; [cbn [b_order]; lia|]. split; [exact Hlen'|]. split; [apply sorted_kn_of_nth; exact rb_K_sorted|lra].
+Qed.
+End RaiseBasis.
+
+(* ------------------------------------------------------------------------------------------------ *)
+(* replacing bases by interpolation at the Greville points (raise_order / lower_order): shapes and knots *)
+Definition basis_good (b : basis R) : Prop := knots_ok b /\ (0 < b_nfun b)%nat.
+
+Lemma order_change_matrix_length tol (bo bn : basis R) M : order_change_matrix tol bo bn = Ok M -> length M = b_nfun bn.
+Proof.
+  unfold order_change_matrix. cbv zeta. destruct (inverse _) as [Ai|er] eqn:EI; [|discriminate]. intros [= <-].
+  rewrite matmul_length. destruct (inverse_spec _ _ EI) as (_ & _ & [HL _]). rewrite HL.
+  destruct (InterpProofs.colloc_mat tol bn 0 (greville_pts bn)) as [HC _]. rewrite HC. unfold greville_pts. rewrite map_length, seq_length. reflexivity.
+Qed.
+
+Lemma change_bases_inv tol : forall (news : list (basis R)) (o : obj R) d (o' : obj R), inv o ->
+  (d + length news <= length (o_bases o))%nat -> Forall basis_good news -> obj_change_bases tol o d news = Ok o' ->
+  inv o' /\ length (o_bases o') = length (o_bases o) /\ o_dim o' = o_dim o /\ o_rat o' = o_rat o /\
+  forall i, nth i (o_bases o') dflt_basis =
+    if (d <=? i)%nat && (i <? d + length news)%nat then nth (i - d) news dflt_basis else nth i (o_bases o) dflt_basis.
+Proof.
+  induction news as [|bn rest IH]; intros o d o' HI Hd HN; cbn [obj_change_bases].
+  - intros [= <-]. split; [exact HI|]. repeat split. intros i. cbn [length]. rewrite Nat.add_0_r.
+    destruct (Nat.leb_spec d i); destruct (Nat.ltb_spec i d); cbn [andb]; try reflexivity; lia.
+  - cbn [length] in Hd. inversion HN as [|? ? [Hk Hn] HN']; subst.
+    destruct (order_change_matrix tol (nth d (o_bases o) (mkBasis 0 [] 0)) bn) as [M|er] eqn:EM; [|discriminate].
+    pose proof (order_change_matrix_length _ _ _ _ EM) as HM.
+    set (o1 := mkObj (upd (o_bases o) d bn) (apply_dir (o_ncomp o) (o_shape o) d M (o_cps o)) (o_dim o) (o_rat o)).
+    assert (HI1 : inv o1).
+    { destruct HI as [HS HB]. split; [apply shape_ok_along; [exact HS|lia|exact HM|lia]|]. cbn [o1 o_bases]. apply Forall_upd; assumption. }
+    intros E. destruct (IH o1 (S d) o' HI1) as (R1 & R2 & R3 & R4 & R5); [cbn [o1 o_bases]; rewrite upd_length; lia|exact HN'|exact E|].
+    split; [exact R1|]. split; [rewrite R2; cbn [o1 o_bases]; apply upd_length|]. split; [exact R3|]. split; [exact R4|].
+    intros i. rewrite R5. cbn [o1 o_bases length].
+    destruct (Nat.leb_spec (S d) i) as [A|A]; destruct (Nat.ltb_spec i (S d + length rest)) as [B|B]; cbn [andb].
+    + destruct (Nat.leb_spec d i); [|lia]. destruct (Nat.ltb_spec i (d + S (length rest))); [|lia]. cbn [andb].
+      replace (i - d)%nat with (S (i - S d)) by lia. reflexivity.
+    + destruct (Nat.ltb_spec i (d + S (length rest))); [lia|]. rewrite andb_false_r. apply upd_nth_other. lia.
+    + destruct (Nat.eq_dec i d) as [->|Ne].
+      * rewrite InsertEndToEnd.upd_nth_same by lia. destruct (Nat.leb_spec d d); [|lia]. destruct (Nat.ltb_spec d (d + S (length rest))); [|lia].
+        cbn [andb]. rewrite Nat.sub_diag. reflexivity.
+      * rewrite upd_nth_other by exact Ne. destruct (Nat.leb_spec d i); [lia|]. reflexivity.
+    + lia.
+Qed.
+
+Lemma combine_nth_gen {A B} (l1 : list A) (l2 : list B) i d1 d2 : (i < Nat.min (length l1) (length l2))%nat ->
+  nth i (combine l1 l2) (d1, d2) = (nth i l1 d1, nth i l2 d2).
+Proof.
+  revert l2 i. induction l1 as [|a l1 IH]; intros l2 i Hi; [cbn in Hi; lia|]. destruct l2 as [|b l2]; [cbn in Hi; lia|].
+  destruct i; cbn [combine nth]; [reflexivity|]. apply IH. cbn in Hi. lia.
+Qed.
+
+(* SplineObject.raise_order: in every direction that is raised the basis is non-periodic and its domain is wider than
+   the tolerance (so that knot_spans finds at least two distinct knots) *)
+Definition raise_dir_ok (tol : R) (b : basis R) (a : nat) : Prop :=
+  a = 0%nat \/ (b_per1 b = 0%nat /\ tol < b_end b - b_start b).
+Definition guard_raise (tol : R) (o : obj R) (raises : list nat) : Prop :=
+  0 <= tol /\ forall i, (i < length (o_bases o))%nat -> raise_dir_ok tol (nth i (o_bases o) dflt_basis) (nth i raises 0%nat).
+
+Lemma basis_good_raise tol (b : basis R) a : 0 <= tol -> basis_good b -> raise_dir_ok tol b a -> basis_good (basis_raise_order tol b a).
+Proof.
+  intros Htol [Hk Hn] [->|[Hper Hw]]; [split; assumption|].
+  destruct (Nat.eq_dec a 0) as [->|Ha]; [split; assumption|].
+  destruct (knots_ok_raise tol b a Htol Hk Hper Hw ltac:(lia)) as (K1 & K2 & _). split; assumption.
+Qed.
+
+Lemma raise_news_good tol : 0 <= tol -> forall (bs : list (basis R)) raises, Forall basis_good bs ->
+  (forall i, (i < length bs)%nat -> raise_dir_ok tol (nth i bs dflt_basis) (nth i raises 0%nat)) ->
+  Forall basis_good (map (fun br : basis R * nat => basis_raise_order tol (fst br) (snd br)) (combine bs raises)).
+Proof.
+  intros Htol. induction bs as [|b bs IH]; intros raises HB HG; [constructor|]. destruct raises as [|a raises]; [constructor|].
+  inversion HB; subst. cbn [combine map fst snd]. constructor.
+  - apply basis_good_raise; [exact Htol|assumption|]. apply (HG 0%nat). cbn. lia.
+  - apply IH; [assumption|]. intros i Hi. apply (HG (S i)). cbn. lia.
+Qed.
+
+Lemma inv_bases_good (o : obj R) : inv o -> Forall basis_good (o_bases o).
+Proof.
+  intros HI. pose proof (inv_nfun_pos o HI) as HN. destruct HI as [_ HB]. apply Forall_forall. intros b Hb.
+  rewrite Forall_forall in HB, HN. split; [apply HB|apply HN]; exact Hb.
+Qed.
+
+Lemma raise_order_inv tol (o o' : obj R) raises : inv o -> guard_raise tol o raises -> obj_raise_order tol o raises = Ok o' ->
+  inv o' /\ length (o_bases o') = length (o_bases o) /\ o_dim o' = o_dim o /\ o_rat o' = o_rat o /\
+  forall i, nth i (o_bases o') dflt_basis =
+    if (i <? Nat.min (length (o_bases o)) (length raises))%nat then basis_raise_order tol (nth i (o_bases o) dflt_basis) (nth i raises 0%nat)
+    else nth i (o_bases o) dflt_basis.
+Proof.
+  intros HI [Htol HG]. unfold obj_raise_order. destruct (forallb _ raises) eqn:EZ.
+  - intros [= <-]. split; [exact HI|]. repeat split. intros i.
+    destruct (Nat.ltb_spec i (Nat.min (length (o_bases o)) (length raises))) as [L|L]; [|reflexivity].
+    rewrite forallb_forall in EZ. assert (E0 : nth i raises 0%nat = 0%nat) by (apply Nat.eqb_eq, EZ, nth_In; lia).
+    rewrite E0. reflexivity.
+  - destruct (_ && _); [discriminate|]. intros E.
+    set (news := map (fun br : basis R * nat => basis_raise_order tol (fst br) (snd br)) (combine (o_bases o) raises)) in *.
+    assert (Hln : length news = Nat.min (length (o_bases o)) (length raises)) by (unfold news; rewrite map_length, combine_length; reflexivity).
+    destruct (change_bases_inv tol news o 0 o' HI) as (R1 & R2 & R3 & R4 & R5); [lia|apply raise_news_good; [exact Htol|apply inv_bases_good; exact HI|exact HG]|exact E|].
+    split; [exact R1|]. split; [exact R2|]. split; [exact R3|]. split; [exact R4|]. intros i. rewrite R5. cbn [Nat.leb andb Nat.add]. rewrite Hln, Nat.sub_0_r.
+    destruct (Nat.ltb_spec i (Nat.min (length (o_bases o)) (length raises))) as [L|L]; [|reflexivity].
+    unfold news. rewrite (nth_map_gen _ _ i dflt_basis (dflt_basis, 0%nat)) by (rewrite combine_length; exact L).
+    rewrite combine_nth_gen by exact L. reflexivity.
+Qed.
+
+(* ------------------------------------------------------------------------------------------------ *)
+(* split: a piece of a split in a non-periodic direction (hypotheses of Proofs/SplitCompose.v) *)
+Lemma wf_obj_inv tol (o : obj R) : 0 < tol -> wf_obj_R tol o -> inv o.
+Proof.
+  intros Htol (HB & HV & HL). split.
+  - split; [exact HL|]. split; [exact HV|]. fold (prodl (o_shape o)). apply prodl_pos_iff. unfold o_shape. rewrite Forall_map.
+    apply Forall_forall. intros b Hb. rewrite Forall_forall in HB. destruct (HB b Hb) as (_ & _ & _ & Hn & _). exact Hn.
+  - apply Forall_forall. intros b Hb. rewrite Forall_forall in HB. destruct (HB b Hb) as (HK & Hp & Hlen & _ & Hw).
+    split; [exact Hp|]. split; [exact Hlen|]. split; [exact HK|lra].
+Qed.
+
+Definition guard_split (tol : R) (o : obj R) (d : nat) (ks : list R) : Prop := exists p k, split_hyps tol o d p k ks.
+
+Lemma split_pick_inv tol (o o' : obj R) d ks idx : guard_split tol o d ks ->
+  step2 tol o (OpSplitPick d ks idx) = Ok o' -> inv o' /\ length (o_bases o') = length (o_bases o).
+Proof.
+  intros (p & k & H). cbn [step2]. destruct (d <? o_pardim o)%nat; [|discriminate].
+  destruct (obj_split (S (length ks)) tol o d ks) as [ps|er] eqn:E; [|discriminate].
+  destruct (nth_error ps idx) as [pc|] eqn:En; [|discriminate]. intros [= <-].
+  assert (Hidx : (idx < length ps)%nat) by (apply nth_error_Some; congruence).
+  rewrite (split_length tol o d p k ks H _ _ E) in Hidx.
+  destruct (split_tiling tol o d p k ks H _ _ E idx ltac:(lia)) as (T1 & T2 & _). cbv zeta in T1, T2.
+  rewrite (nth_error_nth ps idx o En) in T1, T2. split; [|exact T2]. apply (wf_obj_inv tol); [exact (sh_tol _ _ _ _ _ _ H)|exact T1].
+Qed.
+
+(* positive weights of the pieces *)
+Lemma along_weights (so : obj R) d (bnew : basis R) (M : list (list R)) : inv so -> weights_pos so -> (d < length (o_bases so))%nat ->
+  Forall (pos_row (b_nfun (nth d (o_bases so) dflt_basis))) M -> weights_pos (obj_along so d bnew M).
+Proof.
+  intros [(HL & HV & HP) HB] HW Hd HM. unfold obj_along, weights_pos. cbn [o_rat o_cps o_dim]. intros Hr.
+  apply (apply_dir_wpos (o_ncomp so) (o_dim so)).
+  - unfold o_ncomp. rewrite Hr. lia.
+  - unfold o_shape. rewrite map_length. exact Hd.
+  - exact HL.
+  - exact HP.
+  - rewrite o_shape_nth by exact Hd. exact HM.
+  - exact HV.
+  - apply HW. exact Hr.
+Qed.
+
+Lemma slice_matrix_pos_rows n a len : (len = 0 \/ a + len <= n)%nat -> Forall (pos_row n) (@slice_matrix R NumR n a len).
+Proof.
+  intros H. unfold slice_matrix. apply Forall_forall. intros row Hrow. apply in_map_iff in Hrow. destruct Hrow as (i & <- & Hi).
+  apply in_seq in Hi. apply unit_pos_row. lia.
+Qed.
+
+Lemma bisect_left_mono (k : list R) x y : sorted (kn k) -> x <= y -> (py_bisect_left k x <= py_bisect_left k y)%nat.
+Proof.
+  intros HK Hxy. unfold py_bisect_left.
+  destruct (bisect_left_spec (kn k) HK x (length k)) as (A1 & B1 & C1). destruct (bisect_left_spec (kn k) HK y (length k)) as (A2 & B2 & C2).
+  cbv zeta in *. destruct (Nat.le_gt_cases (bisect_left (kn k) x (length k)) (bisect_left (kn k) y (length k))) as [L|L]; [exact L|exfalso].
+  pose proof (B1 _ L). pose proof (C2 (bisect_left (kn k) y (length k)) ltac:(lia)). lra.
+Qed.
+Lemma bisect_left_le (k : list R) x i : sorted (kn k) -> (i < length k)%nat -> x <= kn k i -> (py_bisect_left k x <= i)%nat.
+Proof.
+  intros HK Hi Hx. unfold py_bisect_left. destruct (bisect_left_spec (kn k) HK x (length k)) as (A1 & B1 & C1). cbv zeta in *.
+  destruct (Nat.le_gt_cases (bisect_left (kn k) x (length k)) i) as [L|L]; [exact L|exfalso]. pose proof (B1 i L). lra.
+Qed.
+
+Lemma split_insert_keeps tol (b0 : basis R) d : forall ks (o so : obj R), inv o -> weights_pos o -> (d < length (o_bases o))%nat ->
+  b_per1 (nth d (o_bases o) dflt_basis) = 0%nat -> Forall (fun x => x < b_end b0) ks -> b_end b0 <= b_end (nth d (o_bases o) dflt_basis) ->
+  split_insert tol b0 o d ks = Ok so ->
+  inv so /\ weights_pos so /\ length (o_bases so) = length (o_bases o) /\ b_per1 (nth d (o_bases so) dflt_basis) = 0%nat /\
+  b_end b0 <= b_end (nth d (o_bases so) dflt_basis).
+Proof.
+  induction ks as [|x rest IH]; intros o so HI HW Hd Hper Hks He; cbn [split_insert]; [intros [= <-]; split; [exact HI|split; [exact HW|split; [reflexivity|split; assumption]]]|].
+  destruct (basis_continuity tol b0 x) as [c|er]; [|discriminate].
+  set (xs := repeat x _). destruct (obj_insert_knots o d xs) as [o1|er] eqn:E1; [|discriminate].
+  inversion Hks as [|? ? Hx Hks']; subst.
+  assert (Es : step o (OpInsert d xs) = Ok o1) by (cbn [step]; unfold o_pardim; destruct (Nat.ltb_spec d (length (o_bases o))); [exact E1|lia]).
+  pose proof (step_preserves_inv o o1 (OpInsert d xs) HI Hper Es) as HI1.
+  destruct HI as [HS HB]. destruct (insert_knots_shape xs o o1 d HS Hd E1) as [_ Hl1].
+  destruct (insert_knots_bases xs o o1 d HB Hd Hper E1) as (_ & P1 & _ & P2 & _).
+  assert (HW1 : weights_pos o1).
+  { apply (insert_knots_weights xs o o1 d (conj HS HB) HW Hd Hper); [|exact E1]. apply Forall_forall. intros y Hy.
+    apply repeat_spec in Hy. subst y. lra. }
+  intros E. destruct (IH o1 so HI1 HW1 ltac:(lia) P1 Hks' ltac:(lra) E) as (R1 & R2 & R3 & R4 & R5).
+  split; [exact R1|]. split; [exact R2|]. split; [congruence|]. split; assumption.
+Qed.
+
+Section SplitPieces.
+Variable so : obj R.
+Variable d : nat.
+Variables st en : R.
+Hypothesis HI : inv so.
+Hypothesis HW : weights_pos so.
+Hypothesis Hd : (d < length (o_bases so))%nat.
+Hypothesis Hper : b_per1 (nth d (o_bases so) dflt_basis) = 0%nat.
+Hypothesis Hen : en <= b_end (nth d (o_bases so) dflt_basis).
+Local Notation bd := (nth d (o_bases so) dflt_basis).
+
+Lemma split_pieces_weights : forall ks lk lc, (lc <= lk)%nat -> StronglySorted Rle ks ->
+  (forall x, In x ks -> (lk <= py_bisect_left (b_knots bd) x)%nat) ->
+  Forall weights_pos (split_pieces so d st en ks lk lc).
+Proof.
+  pose proof HI as [HS HB]. pose proof (Forall_nth_in _ _ d dflt_basis HB Hd) as (Hp & Hlen & HK & Hse).
+  induction ks as [|x rest IH]; intros lk lc Hl HSS Hmu; cbn [split_pieces]; fold dflt_basis.
+  - constructor; [|constructor]. apply along_weights; try assumption. apply slice_matrix_pos_rows. lia.
+  - cbv zeta. apply StronglySorted_inv in HSS. destruct HSS as [HSS Hx].
+    cbn [nltb NumR]. destruct (Rltb_spec st x) as [A|A]; cbn [andb]; [|apply IH; [exact Hl|exact HSS|intros y Hy; apply Hmu; right; exact Hy]].
+    destruct (Rltb_spec x en) as [A'|A']; [|apply IH; [exact Hl|exact HSS|intros y Hy; apply Hmu; right; exact Hy]].
+    set (mu := py_bisect_left (b_knots bd) x).
+    assert (Hmu1 : (lk <= mu)%nat) by (apply Hmu; left; reflexivity).
+    assert (Hmu2 : (mu <= b_nfun bd)%nat).
+    { unfold b_nfun. rewrite Hper, Nat.sub_0_r. apply bisect_left_le; [exact HK|lia|]. unfold b_end in Hen. lra. }
+    constructor.
+    + apply along_weights; try assumption. apply slice_matrix_pos_rows. lia.
+    + apply IH; [lia|exact HSS|]. intros y Hy. apply bisect_left_mono; [exact HK|]. rewrite Forall_forall in Hx. apply Hx. exact Hy.
+Qed.
+End SplitPieces.
+
+Lemma split_pick_weights tol (o o' : obj R) d ks idx : guard_split tol o d ks -> weights_pos o ->
+  step2 tol o (OpSplitPick d ks idx) = Ok o' -> weights_pos o'.
+Proof.
+  intros (p & k & H) HW. cbn [step2]. destruct (Nat.ltb_spec d (o_pardim o)) as [Hd|Hd]; [|discriminate]. unfold o_pardim in Hd.
+  pose proof (sh_tol _ _ _ _ _ _ H) as Htol. pose proof (wf_obj_inv tol o Htol (sh_wf _ _ _ _ _ _ H)) as HI.
+  pose proof (sh_basis _ _ _ _ _ _ H) as Hb0.
+  assert (Hper : b_per1 (nth d (o_bases o) dflt_basis) = 0%nat) by (rewrite Hb0; reflexivity).
+  cbn [obj_split]. fold dflt_basis. set (b0 := nth d (o_bases o) dflt_basis) in *.
+  destruct (split_insert tol b0 o d ks) as [so|er] eqn:ES; [|discriminate].
+  assert (Hks : Forall (fun x => x < b_end b0) ks).
+  { pose proof (sh_inside _ _ _ _ _ _ H) as Hin. apply Forall_forall. intros x Hx. rewrite Forall_forall in Hin. destruct (Hin x Hx) as [_ B].
+    rewrite Hb0. exact B. }
+  destruct (split_insert_keeps tol b0 d ks o so HI HW Hd Hper Hks ltac:(unfold b0; lra) ES) as (R1 & R2 & R3 & R4 & R5).
+  rewrite R4. cbn [Nat.eqb negb].
+  destruct (nth_error _ idx) as [pc|] eqn:En; [|discriminate]. intros [= <-].
+  assert (HF : Forall weights_pos (split_pieces so d (b_start b0) (b_end b0) ks 0 0)).
+  { apply split_pieces_weights; try assumption; [lia|lia| |intros; lia].
+    apply (ssorted_impl Rlt); [intros a b0' Hab; lra|exact (sh_incr _ _ _ _ _ _ H)]. }
+  rewrite Forall_forall in HF. apply HF. apply (nth_error_In _ _ En).
+Qed.
+
+(* ------------------------------------------------------------------------------------------------ *)
+(* make_splines_compatible *)
+Lemma force_rational_facts (o : obj R) : inv o ->
+  inv (obj_force_rational o) /\ o_bases (obj_force_rational o) = o_bases o /\ o_dim (obj_force_rational o) = o_dim o /\
+  o_rat (obj_force_rational o) = true /\ (weights_pos o -> weights_pos (obj_force_rational o)).
+Proof.
+  intros HI. split; [apply (step_preserves_inv o _ OpForceRational HI I eq_refl)|].
+  split; [unfold obj_force_rational; destruct (o_rat o); reflexivity|]. split; [unfold obj_force_rational; destruct (o_rat o); reflexivity|].
+  split; [unfold obj_force_rational; destruct (o_rat o) eqn:E; [exact E|reflexivity]|].
+  intros HW. apply (step_preserves_weights o _ OpForceRational HI HW I I eq_refl).
+Qed.
+
+Lemma set_dimension_facts (o : obj R) n : inv o ->
+  inv (obj_set_dimension o n) /\ o_bases (obj_set_dimension o n) = o_bases o /\ o_dim (obj_set_dimension o n) = n /\
+  o_rat (obj_set_dimension o n) = o_rat o /\ (weights_pos o -> weights_pos (obj_set_dimension o n)).
+Proof.
+  intros HI. split; [apply (step_preserves_inv o _ (OpSetDimension n) HI I eq_refl)|]. repeat split.
+  intros HW. apply weights_set_dimension; [exact (proj1 HI)|exact HW].
+Qed.
+
+Lemma compatible_facts (o1 o2 : obj R) : inv o1 -> inv o2 ->
+  let c := obj_compatible o1 o2 in
+  inv (fst c) /\ inv (snd c) /\ o_bases (fst c) = o_bases o1 /\ o_bases (snd c) = o_bases o2 /\
+  o_dim (fst c) = o_dim (snd c) /\ o_rat (fst c) = o_rat (snd c) /\
+  (weights_pos o1 -> weights_pos (fst c)) /\ (weights_pos o2 -> weights_pos (snd c)).
+Proof.
+  intros H1 H2. cbv zeta. unfold obj_compatible.
+  set (ab := if o_rat o1 then (o1, obj_force_rational o2) else if o_rat o2 then (obj_force_rational o1, o2) else (o1, o2)).
+  assert (Hab : inv (fst ab) /\ inv (snd ab) /\ o_bases (fst ab) = o_bases o1 /\ o_bases (snd ab) = o_bases o2 /\
+                o_rat (fst ab) = o_rat (snd ab) /\ (weights_pos o1 -> weights_pos (fst ab)) /\ (weights_pos o2 -> weights_pos (snd ab))).
+  { unfold ab. destruct (force_rational_facts o1 H1) as (A1 & A2 & A3 & A4 & A5). destruct (force_rational_facts o2 H2) as (B1 & B2 & B3 & B4 & B5).
+    destruct (o_rat o1) eqn:E1; cbn [fst snd]; [split; [|split; [|split; [|split; [|split; [|split]]]]]; try assumption; try congruence; auto|].
+    destruct (o_rat o2) eqn:E2; cbn [fst snd]; (split; [|split; [|split; [|split; [|split; [|split]]]]]); try assumption; try congruence; auto. }
+  destruct ab as [a b]. cbn [fst snd] in Hab. destruct Hab as (Ia & Ib & Ba & Bb & Rab & Wa & Wb).
+  destruct (set_dimension_facts a (o_dim b) Ia) as (A1 & A2 & A3 & A4 & A5). destruct (set_dimension_facts b (o_dim a) Ib) as (B1 & B2 & B3 & B4 & B5).
+  destruct (o_dim b <? o_dim a)%nat; cbn [fst snd].
+  - split; [exact Ia|]. split; [exact B1|]. split; [exact Ba|]. split; [congruence|]. split; [congruence|]. split; [congruence|]. split; [exact Wa|]. intros W. apply B5, Wb, W.
+  - split; [exact A1|]. split; [exact Ib|]. split; [congruence|]. split; [exact Bb|]. split; [congruence|]. split; [congruence|]. split; [|exact Wb]. intros W. apply A5, Wa, W.
 Qed.
